@@ -744,6 +744,10 @@ class Interp:
 
     @staticmethod
     def _eq(a, b):
+        if isinstance(a, AList) and isinstance(b, AList):
+            return a is b or (len(a.l) == len(b.l) and all(Interp._eq(x, y) for x, y in zip(a.l, b.l)))
+        if isinstance(a, ADict) and isinstance(b, ADict):
+            return a is b or (set(a.d) == set(b.d) and all(Interp._eq(a.d[k], b.d[k]) for k in a.d))
         if isinstance(a, (ADict, AList, ALine, AMatch, APart)) or isinstance(b, (ADict, AList, ALine, AMatch, APart)):
             return a is b
         if isinstance(a, Sym) or isinstance(b, Sym):
